@@ -103,6 +103,13 @@ CLAIMED["C12"] = ("DESIGN.md §4 C12",
     "with at most one connect dispatch; messages are polled only from entries of streams; unicast uses the addressee's key, broadcast iterates all streams with the serialised "
     "frame; the shutdown receiver is polled every outer iteration, its Ok edge leaves the loop through thread_pool.stop(). Cross-thread execution order is not decided.")
 
+CLAIMED["C13"] = ("DESIGN.md §4 C13",
+    "R-TABLE (escape / unescaped / whitespace / literal tables vs RFC 8259; serialiser evaluated as an ordered function over code-point intervals and composed with the parser's table), R-MUSTPASS on the product of the CFG with a finite abstract store (comma between elements), R-DOM same-token gates before f64::from_str and from_str_radix, R-PAIR (depth inc/dec)",
+    "Decides: parser escapes, unescaped set, whitespace and literals equal RFC 8259; the serialiser writes only RFC escapes the parser inverts, writes verbatim only "
+    "RFC-unescaped characters and \\u-escapes the rest; every element->element path in arrays and objects passes the consumed comma, values follow a consumed colon and a "
+    "quoted key; number and \\u tokens reach std's converters only through character-level gates on the same token; depth accounting is paired and bounded; members keep "
+    "document order; serialiser writes stored order with the RFC separators. Completeness of the number gate and numeric values are not decided.")
+
 NOT_YET = {}
 
 NOT_APPLICABLE = {
